@@ -1209,8 +1209,8 @@ def lazy_paths(ctx: Ctx, drv: Optional[Driver]) -> None:
     cur: dict = {}
     records: list = []
 
-    def spy(elem, root, namespaces=None, relative=True, add_position=False, parent_path=False):
-        path = orig(elem, root, namespaces, relative, add_position, parent_path)
+    def spy(elem, root, namespaces=None, relative=True, add_position=False, parent_path=False, **kw):
+        path = orig(elem, root, namespaces, relative, add_position, parent_path, **kw)
         res = cur.get('res')
         if res is not None and root is res.root:
             records.append({'snap': rendered_tree(root, dict(namespaces or {})), 'pos': position_of(root, elem),
